@@ -117,15 +117,18 @@ structure RxCfg where
   maxStates : Nat    -- `MAX_NUM_RECEIVE_STATES`
   deriving Repr
 
-/-- the header test of `DoInputImplementation` (line 70), except for the "enough bytes" conjunct,
-    which `parseFrags` evaluates against the packet -/
-def hdrOk (c : RxCfg) (magic sex total : Nat) : Bool :=
-  magic = c.magic && (c.sex = 0 || c.sex ≠ sex) && total ≤ c.maxIn
+/-- the part of the header test of `DoInputImplementation` that decides whether the receiver listens to this
+    fragment at all: magic and source-exclusion id.  ("Enough bytes" is evaluated by `parseFrags` against
+    the packet, the size limit separately: see below.) -/
+def hdrOk (c : RxCfg) (magic sex : Nat) : Bool :=
+  magic = c.magic && (c.sex = 0 || c.sex ≠ sex)
 
-/-- the inner `while(unflat.GetNumBytesAvailable() >= FRAGMENT_HEADER_SIZE)` loop: the fragments of
-    one packet that pass the header test, in order; the loop `break`s at the first that does not
-    (wrong magic, excluded source id, more chunk bytes announced than present, total size above the
-    limit).  One unit of fuel per fragment; `rxPacket` supplies `length + 1`. -/
+/-- the inner `while(unflat.GetNumBytesAvailable() >= FRAGMENT_HEADER_SIZE)` loop: the fragments of one
+    packet that reach the reassembly code, in order.  The loop `break`s at the first header with a wrong
+    magic, an excluded source id, or more chunk bytes announced than present.  A fragment that passes
+    these tests but belongs to a Message over the size limit (`totalSize > _maxIncomingMessageSize`) is
+    *skipped* (`SeekRelative(chunkSize); continue;` — fix 79d1d2b) and the loop goes on with what follows
+    it in the packet.  One unit of fuel per fragment; `rxPacket` supplies `length + 1`. -/
 def parseFrags (c : RxCfg) : Nat → Bytes → List Frag
   | 0, _ => []
   | fuel+1, b =>
@@ -147,9 +150,11 @@ def parseFrags (c : RxCfg) : Nat → Bytes → List Frag
     match rd32 b with
     | none => []
     | some (total, b) =>
-      if hdrOk c magic sex total && chunk ≤ b.length then
-        { magic := magic, sex := sex, id := id, off := off, chunk := chunk, total := total, data := b.take chunk }
-          :: parseFrags c fuel (b.drop chunk)
+      if hdrOk c magic sex && chunk ≤ b.length then
+        if total > c.maxIn then parseFrags c fuel (b.drop chunk)
+        else
+          { magic := magic, sex := sex, id := id, off := off, chunk := chunk, total := total, data := b.take chunk }
+            :: parseFrags c fuel (b.drop chunk)
       else []
 
 /-- `ReceiveState`: message id, next expected offset, reassembly buffer -/
